@@ -48,14 +48,14 @@ def oracle_svcstart(case, impl):
         return "Start failed but left listeners bound (%s)" % bound
     if kind == "ok" and res != "started":
         return "every address was free but Start did not succeed (%s)" % res
-    if kind in ("inuse", "notavail") and res != "error":
+    if kind in ("inuse", "notavail", "namedinuse") and res != "error":
         return "an address could not be bound (%s) but Start did not report the error (%s)" % (kind, res)
     return None
 
 SPEC = dict(
     lean_module="NV.Props.C16",
     areas=[dict(name="listen", n_quick=150, n_thorough=2400, shards_thorough=8, oracle=oracle_listen, timeout=900),
-           dict(name="svcstart", binary="main.test", n_quick=4, n_thorough=12, shards_thorough=1, oracle=oracle_svcstart, timeout=300)],
+           dict(name="svcstart", binary="main.test", n_quick=5, n_thorough=15, shards_thorough=1, oracle=oracle_svcstart, timeout=300)],
     level_text="The start-up/shutdown protocol of ListenAndServe is modelled as a small-step system with ANY number of listener threads; "
                "kernel-checked invariants over all interleavings give: no bound socket at return, the bind error is the one returned "
                "(no external stop), no deadlock after cancellation and a strictly decreasing rank (termination). The pre-repair protocol "
